@@ -38,6 +38,7 @@ from fractions import Fraction
 from typing import Dict, List, Optional, Tuple
 
 from engine.index import AnalysisError, unparse
+from engine.absint import ModuleEnv
 from engine.pyinterp import Env, Function, Interp, InterpRaised, Stub, StubCall, Unsupported
 from rules.common import HOURLY_MODEL, method
 
@@ -186,6 +187,79 @@ class ADateArray(Stub):
         return len(self.dates)
 
 
+class AIntIndex(Stub):
+    """The integer Index that DatetimeIndex.hour / .minute give: iterable, sized, indexable by position or mask, with duplicated()."""
+
+    def __init__(self, vals: List[int]):
+        self.vals = list(vals)
+
+    def __iter__(self):
+        return iter(self.vals)
+
+    def __len__(self):
+        return len(self.vals)
+
+    def _abs_len(self):
+        return len(self.vals)
+
+    def __contains__(self, v):
+        return v in self.vals
+
+    def tolist(self):
+        return list(self.vals)
+
+    to_list = tolist
+
+    @property
+    def values(self):
+        return self
+
+    def to_numpy(self):
+        return self
+
+    def unique(self):
+        out: List[int] = []
+        for v in self.vals:
+            if v not in out:
+                out.append(v)
+        return AIntIndex(out)
+
+    def duplicated(self, keep="first"):
+        if keep != "first":
+            raise Unsupported("duplicated(keep != 'first') is not modelled")
+        seen, bits = set(), []
+        for v in self.vals:
+            bits.append(v in seen)
+            seen.add(v)
+        return AMask(bits)
+
+    def _cmp(self, o, f):
+        if isinstance(o, bool) or not isinstance(o, int):
+            raise Unsupported("comparison of hours with " + type(o).__name__)
+        return AMask([f(v, o) for v in self.vals])
+
+    def __eq__(self, o): return self._cmp(o, lambda a, b: a == b)
+    def __ne__(self, o): return self._cmp(o, lambda a, b: a != b)
+    def __lt__(self, o): return self._cmp(o, lambda a, b: a < b)
+    def __le__(self, o): return self._cmp(o, lambda a, b: a <= b)
+    def __gt__(self, o): return self._cmp(o, lambda a, b: a > b)
+    def __ge__(self, o): return self._cmp(o, lambda a, b: a >= b)
+    __hash__ = None  # type: ignore
+
+    def __getitem__(self, k):
+        if isinstance(k, AMask):
+            if len(k.bits) != len(self.vals):
+                raise Unsupported("mask length differs from index length")
+            return AIntIndex([v for v, b in zip(self.vals, k.bits) if b])
+        if isinstance(k, slice):
+            return AIntIndex(self.vals[k])
+        if isinstance(k, bool) or not isinstance(k, int):
+            raise Unsupported("hours[...] with " + type(k).__name__)
+        if not -len(self.vals) <= k < len(self.vals):
+            raise ModelRaise(f"IndexError: index {k} is out of bounds for axis 0 with size {len(self.vals)}")
+        return self.vals[k]
+
+
 class AIndex(Stub):
     """DatetimeIndex stand-in (aware=True) or its wall-clock twin after tz_localize(None)."""
 
@@ -199,11 +273,11 @@ class AIndex(Stub):
 
     @property
     def hour(self):
-        return [s.hour for s in self.stamps]
+        return AIntIndex([s.hour for s in self.stamps])
 
     @property
     def minute(self):
-        return [s.minute for s in self.stamps]
+        return AIntIndex([s.minute for s in self.stamps])
 
     def tz_localize(self, tz):
         if tz is not None:
@@ -408,6 +482,7 @@ class Helpers:
     def __init__(self, chk):
         mod = chk.repo.module(HM)
         self.mod = mod
+        self.chk = chk
         self.gdi = chk.repo.func(HM, "_get_dst_indices")
         self.tdst = chk.repo.func(HM, "_transform_dst")
         hm = chk.repo.cls(*HOURLY_MODEL)
@@ -434,8 +509,7 @@ class Helpers:
     def run(self, frame: AFrame) -> dict:
         """Interpret the three helpers on one abstract frame; returns what happened."""
         it = Interp(step_limit=400_000)
-        genv = Env()
-        genv.set("np", NP())
+        genv = ModuleEnv(self.chk.repo, self.mod, it, {"np": NP(), "numpy": NP()})   # module scope: constants, records, helper functions
         out = {"stage": None, "raised": None}
         try:
             out["stage"] = "_get_dst_indices"
